@@ -145,6 +145,19 @@ func init() {
 				withWatchdog(w, idx, fmt.Sprintf("E3:key-map:round%d", idx), 5*time.Minute, func() { keyMapRound(w, idx) })
 			})
 		}
+		if p.id == "C02" {
+			// "until that moment none of its changes is visible to any other reader": also not half of them while
+			// the commit is being applied - the torn-row rounds of C10, plain build
+			mp.add(func(tier string) Plan {
+				n := 1
+				if tier == "thorough" {
+					n = 8
+				}
+				return Plan{Cases: n, Workers: 1, MaxProcs: 16, Timeout: 40 * time.Minute, HangIsViol: true}
+			}, func(w *W, idx int) {
+				withWatchdog(w, idx, fmt.Sprintf("E3:torn:round%d", idx+300), 5*time.Minute, func() { tornRound(w, idx+300) })
+			})
+		}
 		if p.id == "C19" {
 			mp.add(racePlan(4, 40), func(w *W, idx int) {
 				withWatchdog(w, idx, fmt.Sprintf("E3:trigger-beside-drops:round%d", idx), 5*time.Minute, func() { triggerRound(w, idx) })
